@@ -18,6 +18,7 @@ inductive Coll where
   | sql (db : SqlDb)
   | sbt (z : Zip)
   | lca (db : LcaDb)
+  | lcasql (db : LcaDb)                                 -- an LCA database saved in SQLite format
   | bag (l : List Sig)                                  -- the output directory of `sig split`
   | mf (rows : List Row) (broken : Bool)                -- a `sig collect` manifest over the slots
   | failed
@@ -171,6 +172,7 @@ def stepLoadGeneric (st : St) : St × String :=
   | .sigfile l => (st, showRes (fun l => lst (l.map (showSig true))) (multiIndexLoad l))
   | .sql db => (st, lst ((sqlLoad db).map (showSig true)))
   | .lca db => (st, bag ((db.signatures Sm.Gen.lcaYieldsEmpty).map (showSig false)))
+  | .lcasql db => (st, bag ((db.signatures Sm.Gen.lcaYieldsEmpty).map (showSig false)))
   | .bag l => (st, showRes (fun l => bag (l.map (showSig true))) (multiIndexLoad l))
   | .mf rows broken =>
     if broken && !rows.isEmpty then (st, "err ValueError")       -- nothing to resolve in an empty manifest
@@ -225,6 +227,106 @@ def step (st : St) (line : String) : St × String :=
         ({ st with coll := .lca db.saveLoad }, showRefused [fl])
       | none => bad
     | _, _ => bad
+  | ["noout", l] =>
+    match idxList? l with
+    | some l => match getSigs st l with
+      | some sigs => (st, s!"ok n={sigs.length}")
+      | none => bad
+    | none => bad
+  | ["stdio", l] =>
+    match idxList? l with
+    | some l => match getSigs st l with
+      | some sigs => (st, lst (sigs.map (showSig true)))
+      | none => bad
+    | none => bad
+  | ["sbtjson", l] =>
+    match idxList? l with
+    | some l => match getSigs st l with
+      | some sigs => ({ st with coll := .sbt (sbtSaveFS sigs) }, "ok refused=")
+      | none => bad
+    | none => bad
+  | ["lcasql", ksize, mol, scaled, maxHash, l] =>
+    match nats? [ksize, mol, scaled, maxHash], idxList? l with
+    | some [ksize, mol, scaled, maxHash], some l =>
+      match getSigs st l with
+      | some sigs =>
+        let (db, fl) := lcaInserts (LcaDb.new ksize scaled maxHash mol) sigs
+        -- `LCA_SqliteDatabase.create` of a database without any signature cannot be reopened: ValueError
+        if db.len = 0 then ({ st with coll := .failed }, "err ValueError")
+        else ({ st with coll := .lcasql db }, showRefused [fl])
+      | none => bad
+    | _, _ => bad
+  | ["derive", j, i, "down", scaled, maxHash, md5] =>
+    match nats? [j, i, scaled, maxHash, md5] with
+    | some [j, i, scaled, maxHash, md5] =>
+      match (st.sigs[i]?).join with
+      | some s =>
+        if s.num ≠ 0 ∨ s.scaled = 0 ∨ scaled < s.scaled then (st, "err ValueError")
+        else
+          let hs := s.hashes.filter (fun p => p.1 ≤ maxHash)
+          let t : Sig := { s with scaled := scaled, hashes := hs, md5 := md5 }
+          ({ st with sigs := st.sigs.setIfInBounds j (some t) }, s!"ok md5={md5} n={hs.length}")
+      | none => bad
+    | _ => bad
+  | ["derive", j, i, "flat"] =>
+    match nats? [j, i] with
+    | some [j, i] =>
+      match (st.sigs[i]?).join with
+      | some s =>
+        let t : Sig := { s with track := false, hashes := s.hashes.map fun p => (p.1, 1) }
+        ({ st with sigs := st.sigs.setIfInBounds j (some t) }, s!"ok md5={t.md5} n={t.hashes.length}")
+      | none => bad
+    | _ => bad
+  | ["derive", j, i, "rename", name, filename] =>
+    match nats? [j, i, name, filename] with
+    | some [j, i, name, filename] =>
+      match (st.sigs[i]?).join with
+      | some s =>
+        let t : Sig := { s with name := name, filename := filename }
+        ({ st with sigs := st.sigs.setIfInBounds j (some t) }, s!"ok md5={t.md5} n={t.hashes.length}")
+      | none => bad
+    | _ => bad
+  | ["load", "nomanifest"] =>
+    match st.coll with
+    | .zip z => (st, bag ((zipLoadNoManifest z).map (showSig true)))
+    | _ => (st, "ok -")
+  | ["nested", l1, l2, l3, junk, force] =>
+    -- a directory tree: a.sig (l1), sub/b.sig.gz (l2), sub/deep/c.zip (l3), sub/readme.txt, [junk.sig];
+    -- MultiIndex.load_from_directory reads *.sig / *.sig.gz below the directory, nothing else; an unreadable
+    -- .sig stops the load unless force
+    match idxList? l1, idxList? l2, idxList? l3, bool? junk, bool? force with
+    | some l1, some l2, some l3, some junk, some force =>
+      match getSigs st l1, getSigs st l2, getSigs st l3 with
+      | some s1, some s2, some _ =>
+        if junk && !force then (st, "err ValueError")
+        else (st, bag ((s1 ++ s2).map (showSig true)))
+      | _, _, _ => bad
+    | _, _, _, _, _ => bad
+  | ["lateadd", fmt, l, extra] =>
+    -- one session, close(), then add(extra) on the closed saver: zip and sqldb raise; a directory writes the
+    -- file at once; a JSON file accepts the signature and never writes it (finding C10.7)
+    match idxList? l, nat? extra with
+    | some l, some x =>
+      match getSigs st l, getSigs st [x] with
+      | some sigs, some [ex] =>
+        match fmt with
+        | "zip" => let (c, _) := saveTo "zip" sigs; ({ st with coll := c }, "ok raised=1")
+        | "sqldb" =>
+          let (c, out) := saveTo "sqldb" sigs
+          if out = "ok refused=" then ({ st with coll := c }, "ok raised=1") else ({ st with coll := .failed }, out)
+        | "sig" => ({ st with coll := .sigfile sigs }, "ok raised=0")
+        | "dir" => ({ st with coll := .dir (dirSessions [] [sigs ++ [ex]]) }, "ok raised=0")
+        | _ => bad
+      | _, _ => bad
+    | _, _ => bad
+  | ["sqlapi", l, x] =>
+    -- the same as two sessions, the second one through SqliteIndex.create(append=True).insert()
+    match getSessions st (l ++ "|" ++ x) with
+    | some sessions =>
+      match sqlSessions Sm.Gen.sqliteRecordsSeed SqlDb.empty sessions with
+      | .ok (db, fls) => ({ st with coll := .sql db }, showRefused fls)
+      | .err e => ({ st with coll := .failed }, "err " ++ e.name)
+    | none => bad
   | ["mk", slot, fmt, ss] =>
     match nat? slot, getSessions st ss with
     | some k, some sessions =>
@@ -331,6 +433,8 @@ def step (st : St) (line : String) : St × String :=
     | .sigfile l => (st, showRes (fun l => lst (l.map fun s => showRow true (mkRow s (some (.other 0))))) (multiIndexLoad l))
     | .sql db => (st, lst ((sqlManifest db).map (showRow true)))
     | .lca _ => (st, "ok none")
+    | .lcasql db => (st, bag ((db.signatures Sm.Gen.lcaYieldsEmpty).map fun s =>
+        s!"{s.name}|{s.hashes.length}|{s.scaled}|{s.ksize}|{s.mol}"))
     | .bag l => (st, showRes (fun l => bag (l.map fun s => showRow false (mkRow s none))) (multiIndexLoad l))
     | .mf rows _ => (st, bag (rows.map (showRow true)))
     | _ => (st, "ok -")
@@ -375,6 +479,7 @@ def step (st : St) (line : String) : St × String :=
     | .sigfile l => (st, showRes (fun l => s!"ok {l.length}") (multiIndexLoad l))
     | .sql db => (st, s!"ok {db.sketches.length}")
     | .lca db => (st, s!"ok {db.len}")
+    | .lcasql db => (st, s!"ok {(db.signatures Sm.Gen.lcaYieldsEmpty).length}")
     | .bag l => (st, showRes (fun l => s!"ok {l.length}") (multiIndexLoad l))
     | .mf rows _ => (st, s!"ok {rows.length}")
     | _ => (st, "ok -")
